@@ -6,7 +6,7 @@ PROP = 'C02'
 RULE = ("the C01 message streams (every single bit, every pair, boundary lengths, random subsets, generated configurations; "
         "6 codecs x 2 bitmap forms) compared byte-for-byte with an independent reference encoder and key-for-key with an "
         "independent strict reference decoder, plus over-length variable values (100 / 1000 characters and beyond) on every "
-        "variable element, which must be refused; numeric elements given as text (padded, signed, underscored spellings int() accepts). Non-trivial = at least one data element; distinct = distinct case")
+        "variable element, which must be refused; fixed text longer than its field (cut to the width, not refused); hand-built messages with variable elements of declared count zero (decoding direction); numeric elements given as text (padded, signed, underscored spellings int() accepts). Non-trivial = at least one data element; distinct = distinct case")
 TRUSTED = c01.TRUSTED + ["harness/isoutil.py ref_encode/ref_decode: reference codec written from the documentation"]
 ASSUMPTIONS = c01.ASSUMPTIONS
 
@@ -134,6 +134,16 @@ def explore(run, tier):
                 for n in {1, fc['field_length'] // 2, fc['field_length'] - 1}:
                     m = {'MTI': '1240', f'DE{b}': iu.text(rng, codec, n).rstrip(' ') or 'x'}
                     cases.append(c01.mk('pkg', codec, b % 2, m, {}))
+    # fixed-width text LONGER than its field: exactly the field width is emitted (the first `width` characters) — a fixed
+    # element never grows, and the message is not refused for it
+    for b in bits:
+        fc = pkg[str(b)]
+        if fc['field_type'] not in ('LLVAR', 'LLLVAR') and not fc.get('field_python_type'):
+            w = fc['field_length']
+            for ci, codec in enumerate(codecs3):
+                for extra in (1, 2, w, 40):
+                    v = (iu.text(rng, codec, w + extra).replace(' ', 'x') or 'x') if (b + extra) % 2 else 'A' * w + ' ' * (extra - 1) + 'Z'
+                    cases.append(c01.mk('pkg', codec, (b + ci) % 2, {'MTI': '1240', f'DE{b}': v}, {}))
     # characters the encoding does not have, in fixed / variable text elements and in PDS values
     for codec in codecs3 + ['ascii']:
         for ch in ('\u20ac', '\u0141', '\u0179', '\u3042'):
@@ -311,3 +321,20 @@ def explore(run, tier):
                 m = {'MTI': '1240', 'DE3': '000000', f'DE{bit}': v}
                 cases.append(c01.mk(cfg, codec, (pi + vi) % 2, m, dict(m)))
     run.correspond(__name__, cases, use_model=run.use_model, chunk=150)
+    # the DECODING direction on hand-built messages of the documented layout that the encoder itself never emits: every
+    # variable-length element with a declared count of ZERO, alone and followed by another element — well-framed, so the
+    # element is present with an empty value, identical to the independent reading (evaluated as in C08)
+    bm = lambda bs: sum(1 << (128 - b) for b in [1] + bs).to_bytes(16, 'big')   # noqa: E731
+    dcases = []
+    for b in sorted(int(k) for k, fc in pkg.items() if fc['field_type'] in ('LLVAR', 'LLLVAR')):
+        pl = 2 if pkg[str(b)]['field_type'] == 'LLVAR' else 3
+        for codec in codecs3:
+            e = lambda t: t.encode(codec)   # noqa: E731
+            for hexbm in (0, 1):
+                bmb = (lambda bs: bm(bs).hex().encode(codec)) if hexbm else bm
+                dcases.append({'cfg': 'pkg', 'codec': codec, 'hex': hexbm, 'mut': 'zerolen',
+                               'data': (e('1144') + bmb([b]) + e('0' * pl)).hex()})
+                dcases.append({'cfg': 'pkg', 'codec': codec, 'hex': hexbm, 'mut': 'zerolen',
+                               'data': (e('1144') + bmb([3, b] if b > 3 else [b, 3]) + (e('123456') + e('0' * pl) if b > 3
+                                        else e('0' * pl) + e('123456'))).hex()})
+    run.correspond('harness.props.c08', dcases, use_model=run.use_model, chunk=200)
